@@ -261,3 +261,119 @@ def ob_e(ob):
         S.ST.sqrt_mode = "plain"
     x, y = z3.Reals("x y")
     expect_refuted(ob, x == y, [x > 1, y > 1], "twin: another molecule's Ritz value is distinguishable", "nra")
+
+
+def _g_reference(nat, R, pairs, w, gpar, xfac):
+    """G[R]_{mu nu} = sum_{la si} R_{la si} [ (mu nu|la si) - xfac (mu la|nu si) ] for a general (non-symmetric) R with
+    NDDO integrals: one-centre from gpar, two-centre (AA|BB) from packed w[p][kl(A), kl(B)] (A = first atom of the pair)"""
+    from .C06 import one_center_eri, PK
+
+    n = 4 * nat
+    eri = {}
+    for A in range(nat):
+        T = one_center_eri(gpar[A])
+        for (mu, nu, la, si), v in T.items():
+            if not isinstance(v, int):
+                eri[(4 * A + mu, 4 * A + nu, 4 * A + la, 4 * A + si)] = v
+    for p, (A, B) in enumerate(pairs):
+        for mu in range(4):
+            for nu in range(4):
+                for la in range(4):
+                    for si in range(4):
+                        v = w[p][PK[(mu, nu)]][PK[(la, si)]]
+                        eri[(4 * A + mu, 4 * A + nu, 4 * B + la, 4 * B + si)] = v
+                        eri[(4 * B + la, 4 * B + si, 4 * A + mu, 4 * A + nu)] = v
+    G = np.full((n, n), z3.RealVal(0), dtype=object)
+    for (a, b, c, d), v in eri.items():
+        if z3.is_rational_value(v) and v.as_fraction() == 0:
+            continue
+        G[a, b] = G[a, b] + R[c][d] * v  # Coulomb: (ab|cd) R_cd
+        G[a, c] = G[a, c] - xfac * R[b][d] * v  # exchange: (a b|c d) contributes to G_{a c} with R_{b d}
+    return G
+
+
+def replay_sigma_build():
+    """float64: real makeA_pi_batched on formaldehyde-like O-C-H with the real integrals and a random non-symmetric
+    transition density vs the dense 4-index contraction"""
+    from seqm.seqm_functions.rcis_batch import makeA_pi_batched
+    from seqm.seqm_functions.hcore import hcore
+    from .common import molecule, quiet
+    from .C06 import one_center_eri, PK
+
+    species = [[8, 6, 1]]
+    coords = [[[0.0, 0.0, 0.0], [1.2, 0.1, 0.05], [1.8, 0.95, 0.1]]]
+    mol, p, const = molecule(species, coords, "AM1", charges=torch.tensor([1.0]))
+    with quiet():
+        M, w, *_ = hcore(mol)
+    norb = int(mol.norb[0])
+    g = torch.Generator().manual_seed(4)
+    R = torch.rand(1, 1, norb, norb, generator=g, dtype=w.dtype) - 0.5
+    F = makeA_pi_batched(mol, R.clone(), w)[0, 0]
+    phys = [0, 1, 2, 3, 4, 5, 6, 7, 8]
+    n = 12
+    Rf = [[0.0] * n for _ in range(n)]
+    for i, a in enumerate(phys):
+        for j, b in enumerate(phys):
+            Rf[a][b] = R[0, 0, i, j].item()
+    pr = mol.parameters
+    gpar = [{"gss": pr["g_ss"][a].item(), "gsp": pr["g_sp"][a].item(), "gpp": pr["g_pp"][a].item(), "gp2": pr["g_p2"][a].item(), "hsp": pr["h_sp"][a].item()} for a in range(3)]
+    pairs = [(int(i), int(j)) for i, j in zip(mol.idxi, mol.idxj)]
+    wl = w.tolist()
+    G = [[0.0] * n for _ in range(n)]
+    eri = {}
+    for A in range(3):
+        for k_, v in one_center_eri(gpar[A]).items():
+            if not isinstance(v, int):
+                eri[tuple(4 * A + x for x in k_)] = v
+    for pi, (A, B) in enumerate(pairs):
+        for mu in range(4):
+            for nu in range(4):
+                for la in range(4):
+                    for si in range(4):
+                        v = wl[pi][PK[(mu, nu)]][PK[(la, si)]]
+                        eri[(4 * A + mu, 4 * A + nu, 4 * B + la, 4 * B + si)] = v
+                        eri[(4 * B + la, 4 * B + si, 4 * A + mu, 4 * A + nu)] = v
+    for (a, b, c, d), v in eri.items():
+        G[a][b] += Rf[c][d] * v
+        G[a][c] -= 0.5 * Rf[b][d] * v
+    worst = max(abs(F[i, j].item() - G[a][b]) for i, a in enumerate(phys) for j, b in enumerate(phys))
+    print("replay sigma build: max |makeA_pi_batched - dense (mu nu|la si) contraction| = %.3e" % worst)
+    return worst > 1e-9
+
+
+@obligation(PID, "a", title="sigma build: the matrix-free contraction of a transition density with the two-electron integrals (makeA_pi_batched: symmetric and antisymmetric parts, Coulomb, exchange, one-centre terms) equals sum_{la si} R_{la si} [(mu nu|la si) - 1/2 (mu la|nu si)] of the NDDO definition, element by element, for an arbitrary non-symmetric R, arbitrary two-centre integrals and one-centre parameters")
+def ob_a(ob):
+    from seqm.seqm_functions import rcis_batch as RB
+    from .C06 import _setup_fock, PK
+
+    ob.encodes(RB.makeA_pi_batched, RB.makeA_pi_symm_batch, RB.unpackone_batch, RB.packone_batch)
+    ob.bound("one molecule O-C-H (9 orbitals: heavy-heavy, heavy-hydrogen pairs), one trial vector; all 81 entries of R, the two-centre integrals w (with the zero structure of real integrals) and the five one-centre parameters per atom symbolic; index maps from the real Parser")
+    species = [[8, 6, 1]]
+    mol, const, Z, natoms, npairs, n, phys, w, g = _setup_fock(species)
+    norb = len(phys[0])
+    Rp = S.reals("R", (norb, norb))
+    Rfull = [[z3.RealVal(0)] * n for _ in range(n)]
+    for i, a in enumerate(phys[0]):
+        for j, b in enumerate(phys[0]):
+            Rfull[a][b] = Rp[i, j]
+    par = dict(mol.parameters)
+    par.update({"g_ss": SymTensor(g["gss"].copy()), "g_sp": SymTensor(g["gsp"].copy()), "g_pp": SymTensor(g["gpp"].copy()), "g_p2": SymTensor(g["gp2"].copy()), "h_sp": SymTensor(g["hsp"].copy())})
+    ns = types.SimpleNamespace(molsize=3, nmol=1, mask=mol.mask, maskd=mol.maskd, mask_l=mol.mask_l, idxi=mol.idxi, idxj=mol.idxj, nHeavy=mol.nHeavy, nHydro=mol.nHydro, norb=mol.norb, parameters=par)
+    with symbolic_factories():
+        F = RB.makeA_pi_batched(ns, SymTensor(Rp.copy().reshape(1, 1, norb, norb)), SymTensor(w.copy()))
+    F = F.a.reshape(norb, norb)
+    gpar = [{k: g[k][a] for k in ("gss", "gsp", "gpp", "gp2", "hsp")} for a in range(natoms)]
+    pairs = [(int(i), int(j)) for i, j in zip(mol.idxi, mol.idxj)]
+    G = _g_reference(natoms, Rfull, pairs, w, gpar, z3.RealVal("1/2"))
+    for i, a in enumerate(phys[0]):
+        for j, b in enumerate(phys[0]):
+            lab = "a:element (%d,%d)" % (a, b)
+            v, m = smt.prove(F[i, j] == G[a, b], [], lab, "auto", 60)
+            if v == "sat":
+                if replay_sigma_build():
+                    ob.violation("makeA_pi_batched: element (%d,%d) of the contracted matrix is not sum R[(mu nu|la si) - 1/2 (mu la|nu si)] (CIS/RPA sigma vectors, hence excitation energies and amplitudes, are built from a wrong A matrix)" % (a, b), {"module": "harness.C16", "func": "replay_sigma_build", "args": {}})
+                    return
+                raise HarnessError("sigma-build counterexample did not reproduce (%s)" % lab)
+            ob.verdict(v, lab)
+    x, y = z3.Reals("x y")
+    expect_refuted(ob, x - y / 2 == x - y, [y != 0], "twin: a wrong exchange factor is noticed", "lra")
